@@ -1,6 +1,7 @@
 import DivanModel.Model.NatCmp
 import DivanModel.Model.ArgName
 import DivanModel.Model.Filter
+import DivanModel.Model.Paint
 /-! Executable model of divan's front end, from registered entries to printed output and executed
     benchmark calls: `EntryList` iteration order, `EntryTree::from_benches` / `insert_group` /
     `retain` / `sort_by_attr` (`cmp_by_attr`), `FilterSet::is_match`, `BenchOptions::overwrite`, the
@@ -376,63 +377,14 @@ structure Cfg where
 
 /-! ### the painter -/
 
-structure P where
-  maxSpan : Nat
-  cols : Bool                 -- `has_columns` (bench action)
-  depth : Nat := 0
-  pfx : String := ""
-  out : String := ""          -- everything printed so far
-  deriving Repr
-
-def pad (s : String) (maxSpan : Nat) : String × Nat :=
-  let len := s.length
-  (s ++ String.ofList (List.replicate (2 + (maxSpan - len)) ' '), if len > maxSpan then len else maxSpan)
-
-/-- `TreeColumnData::write` with already serialised cells; widths are irrelevant after canonicalisation,
-    the separator/trailing-space rule is kept -/
-def writeCells (cells : List String) : String :=
-  let n := cells.length
-  (List.range n).foldl (fun acc i =>
-    let v := cells.getD i ""
-    let sep := if i = 0 then "" else if i = n - 1 ∧ v.isEmpty then " │" else " │ "
-    acc ++ sep ++ v) ""
-
-def branch (isLast : Bool) : String := if isLast then "╰─ " else "├─ "
-
-def P.startParent (p : P) (name : String) (isLast : Bool) : P :=
-  let top := p.depth = 0
-  let line := p.pfx ++ (if top then "" else branch isLast) ++ name
-  let (line, ms) := if p.cols then pad line p.maxSpan else (line, p.maxSpan)
-  let line := if p.cols then
-      line ++ writeCells (if top then ["fastest", "slowest", "median", "mean", "samples", "iters"] else ["", "", "", "", "", ""])
-    else line
-  { p with maxSpan := ms, out := p.out ++ line ++ "\n", depth := p.depth + 1,
-           pfx := if top then p.pfx else p.pfx ++ (if isLast then "   " else "│  ") }
-
-def P.finishParent (p : P) : P :=
-  let d := p.depth - 1
-  { p with depth := d, out := if d = 0 then p.out ++ "\n" else p.out,
-           pfx := String.ofList (p.pfx.toList.take (p.pfx.length - 3)) }
-
-def P.ignoreLeaf (p : P) (name : String) (isLast : Bool) : P :=
-  let (line, ms) := pad (p.pfx ++ branch isLast ++ name) p.maxSpan
-  let line := if p.cols then line ++ writeCells ["(ignored)", "", "", "", "", ""] else line ++ "(ignored)"
-  { p with maxSpan := ms, out := p.out ++ line ++ "\n" }
-
-def P.startLeaf (p : P) (name : String) (isLast : Bool) : P :=
-  let line := p.pfx ++ branch isLast ++ name
-  let (line, ms) := if p.cols then pad line p.maxSpan else (line, p.maxSpan)
-  { p with maxSpan := ms, out := p.out ++ line }
-
-def P.finishEmptyLeaf (p : P) : P := { p with out := p.out ++ "\n" }
+/-! The painter itself is `Model/Paint.lean` (exact). In bench mode the measured cells are replaced by
+    class tokens (`T`, `R:<unit>`), and both sides are compared after collapsing runs of spaces. -/
+open Paint
 
 /-- `finish_leaf` with canonical cells: four time cells `T`, samples, iters; then one row per counter kind -/
-def P.finishLeaf (p : P) (isLast : Bool) (samples iters : Nat) (counterUnits : List String) : P :=
-  let row := writeCells ["T", "T", "T", "T", toString samples, toString iters]
-  let cont := counterUnits.foldl (fun acc u =>
-    let (b, _) := pad (p.pfx ++ (if isLast then "" else "│")) p.maxSpan
-    acc ++ b ++ writeCells ["R:" ++ u, "R:" ++ u, "R:" ++ u, "R:" ++ u, "", ""] ++ "\n") ""
-  { p with out := p.out ++ row ++ "\n" ++ cont }
+def canonCells (samples iters : Nat) (counterUnits : List String) : Cells :=
+  { main := ["T", "T", "T", "T", toString samples, toString iters]
+    counters := counterUnits.map fun u => ["R:" ++ u, "R:" ++ u, "R:" ++ u, "R:" ++ u, "", ""] }
 
 /-- `EntryTree::max_name_span` -/
 partial def maxNameSpan (depth : Nat) : List Tree → Nat
@@ -501,7 +453,7 @@ def runThreads (cfg : Cfg) (o : Opts) (slot : Nat) (arg : Option String) (branch
     let lastT := if branches then ts.isEmpty else isLast
     let p := if branches then p.startLeaf s!"t={t}" lastT else p
     let (calls, smp, it) := callsOf cfg.action o t
-    let p := if cfg.action = .bench then p.finishLeaf lastT smp it (counterUnits o) else p.finishEmptyLeaf
+    let p := if cfg.action = .bench then p.finishLeaf lastT (canonCells smp it (counterUnits o)) else p.finishEmptyLeaf
     runThreads cfg o slot arg branches isLast ts p (⟨slot, arg, calls, if calls = 0 then 0 else t⟩ :: ex)
 
 /-- the `run_bench` closure of `run_bench_entry`: one `Bencher` per thread count -/
@@ -613,7 +565,8 @@ def run (pr : Program) (cfg : Cfg) (fbits : String → Option Nat) : Result :=
   else
   let amb := ambiguous cfg.attr tree
   let tree := sortList cfg.attr cfg.rev fbits tree
-  let p : P := { maxSpan := maxNameSpan 0 tree, cols := cfg.action = .bench }
+  let p : P := { maxSpan := maxNameSpan 0 tree,
+                 widths := if cfg.action = .bench then [13, 13, 13, 13, 3, 0] else [0, 0, 0, 0, 0, 0] }
   let w := runTree cfg { p := p } none "" tree
   ⟨w.p.out, w.execs.reverse, amb, w.labels.reverse⟩
 
